@@ -125,6 +125,10 @@ def _recipes(e):
                 return sp.Function("STOT")(args[0])
             if fname in ("np.ones_like",) and len(args) == 1:
                 return sp.Integer(1)
+            if fname in ("np.full_like",) and len(args) == 2:
+                return args[1]  # as a real number; that the fill is cast to the array's dtype is the business of the dtype lint (C12.R6)
+            if fname in ("np.full",) and len(args) == 2 and _is_len(args[0]):
+                return args[1]
             if fname in ("np.ones",) and len(args) == 1 and _is_len(args[0]):
                 return sp.Integer(1)
             if fname == "slice" and len(args) == 4 and _fn(args[0], "np.insert") and len(args[0].args) == 3 \
